@@ -164,5 +164,21 @@ define %SV @f(%SV %x, i32* %b, %FV %i) {
   %q = getelementptr i32, i32* %b, %FV %i
   %r = getelementptr i32, i32* %b, %SV %x
   %s = getelementptr i32, i32* %b, %FV zeroinitializer
+  %t = shufflevector %FV %i, %FV %i, <4 x i32> <i32 0, i32 1, i32 2, i32 3>
+  %u = extractelement <4 x i64> %t, i32 0
+  %v = shufflevector %SV %x, %SV %x, <vscale x 4 x i32> zeroinitializer
+  %w = insertelement <vscale x 4 x i64> %v, i64 %u, i32 0
   ret %SV %a
 }
+;;; ATOM types/quoted-digit-names-with-zeros-and-signs
+%"007" = type { i32 }
+%"7" = type { i64 }
+%"+7" = type { i8 }
+%"-7" = type { i16 }
+%7 = type { float }
+%pair = type { %"007", %"7", %"+7"*, %"-7", %7 }
+@a = global %"007" zeroinitializer
+@b = global %"7" zeroinitializer
+@c = global %"+7" zeroinitializer
+@d = global %pair zeroinitializer
+declare void @f(%"007"*, %"7"*, %"-7"*, %7*)
